@@ -133,6 +133,9 @@ class ExprMixin:
             return VNONE
         if ty.startswith("seq[") or ty == "seq":
             return V("seq", fresh(name, SeqV), elem=split_type(ty)[1])
+        if ty.startswith("tuple("):
+            parts = [p.strip() for p in ty[6:-1].split(",")]
+            return V("tuple", xs=[self.fresh_of(p, st, f"{name}.{i}") for i, p in enumerate(parts)])
         return self.unbox(fresh(name, Val), ty, st)
 
     def store_form(self, v, ty, st=None):
